@@ -215,7 +215,36 @@ class Interp(StmtMixin, ExtMixin, OpsMixin, InterpCore):
                 tl = l.__dict__.setdefault("tail", [])
                 tl.append(SeqV("rowstrings", spec=spec, node=to_node(it)))
 
+    def for_over_nested(self, st, seq, env):
+        """items produced by a loop nest (for i in outer: [several inner sequences that depend on i]): the loop over them is
+        the same nest with the body innermost"""
+        n = next(self.fresh)
+        oname = "_nested_outer_%d" % n
+        idx = SeqV("family", var=seq.var, lo=seq.lo, hi=seq.hi, elem=Num(ep.sym(seq.var))) if seq.seq is None else \
+            SeqV("seqmap", var=seq.var, seq=seq.seq, elem=Num(ep.sym(seq.var)))
+        inner = []
+        names = []
+        for k, part in enumerate(seq.parts):
+            pname = "_nested_part_%d_%d" % (n, k)
+            env.vars[pname] = _NestedPartV(part, seq.var, oname)
+            names.append(pname)
+            loop = ast.For(target=st.target, iter=ast.Name(id=pname, ctx=ast.Load()), body=st.body, orelse=[])
+            inner.append(loop)
+        outer = ast.For(target=ast.Name(id=oname, ctx=ast.Store()), iter=ast.Name(id="_nested_idx_%d" % n, ctx=ast.Load()), body=inner, orelse=[])
+        env.vars["_nested_idx_%d" % n] = idx
+        ast.copy_location(outer, st)
+        ast.fix_missing_locations(outer)
+        try:
+            self.exec_stmt(outer, env)
+        finally:
+            for nm in names + ["_nested_idx_%d" % n, oname]:
+                env.vars.pop(nm, None)
+
     def run_for(self, st, it, env):
+        if isinstance(it, _NestedPartV):
+            it = self.subst(it.part, {it.var: self.num(env.lookup(it.outer_name), st)})
+        if isinstance(it, SeqV) and it.kind == "nested" and not st.orelse:
+            return self.for_over_nested(st, it, env)
         if isinstance(it, SeqV) and it.kind == "rows":
             return self.for_over_rows(st, it, env)
         if isinstance(it, SeqV) and it.kind == "guarded":
@@ -238,7 +267,7 @@ class Interp(StmtMixin, ExtMixin, OpsMixin, InterpCore):
             cond = Cond("cmp", "==", Num(ep.sym(ctx.var) - ctx.lo), Num(ep.const(0)))
             self.path_conds.append((cond, True))
             try:
-                StmtMixin.run_for(self, st, val, env)
+                self._run_for_forced(st, val, env)
             finally:
                 self.path_conds.pop()
             return
@@ -246,11 +275,18 @@ class Interp(StmtMixin, ExtMixin, OpsMixin, InterpCore):
             it.consumed = True
             val, evs = self.force(it)
             n0 = len(self.event_stack[-1])
-            StmtMixin.run_for(self, st, val, env)
+            self._run_for_forced(st, val, env)
             # the generator advances once per iteration: its evaluations interleave with the loop body
             self._interleave(evs, n0)
             return
         StmtMixin.run_for(self, st, it, env)
+
+    def _run_for_forced(self, st, val, env):
+        """loop over the items a generator produced: row groups and conditional items keep their own loop forms"""
+        seqv = self.as_iterable(val, st)
+        if isinstance(seqv, SeqV) and seqv.kind in ("rows", "guarded", "nested"):
+            return self.run_for(st, seqv, env)
+        return StmtMixin.run_for(self, st, val, env)
 
     def _interleave(self, gen_events, n0):
         cur = self.event_stack[-1]
@@ -300,11 +336,28 @@ class Interp(StmtMixin, ExtMixin, OpsMixin, InterpCore):
         return self.as_iterable(out, node) if getattr(out, "tail", None) else out
 
     def e_Yield(self, node, env):
+        cy = self.__dict__.get("ctx_yield")
+        if cy and cy[-1][0] is node:
+            # the single yield of a contextlib.contextmanager function: the with-body runs here
+            cy[-1][1](self.eval(node.value, env) if node.value is not None else NONE)
+            return NONE
         out = env.lookup("@yield")
         if out is None:
             self.err(node, "yield outside generator")
         val = self.eval(node.value, env) if node.value is not None else NONE
         self.m_ListV_append(out, [val], {}, node)
+        return NONE
+
+    def e_YieldFrom(self, node, env):
+        out = env.lookup("@yield")
+        if out is None:
+            self.err(node, "yield from outside generator")
+        seq = self.as_iterable(self.eval(node.value, env), node)
+        tail = getattr(out, "tail", None)
+        if isinstance(seq, ListV) and not getattr(seq, "tail", None) and not tail and not (self.loop_stack and self._is_outer_list(out)):
+            out.items.extend(seq.items)
+        else:
+            out.__dict__.setdefault("tail", []).append(seq)     # the delegate's items follow what was yielded so far
         return NONE
 
     def live_lists(self, env):
@@ -352,8 +405,16 @@ class Interp(StmtMixin, ExtMixin, OpsMixin, InterpCore):
     def for_over_product(self, st, env):
         """for a, b in itertools.product(X, Y): body   ==   X, Y evaluated once;  for a in X: for b in Y: body"""
         it = st.iter
-        if not (isinstance(it, ast.Call) and not it.keywords and len(it.args) >= 2 and isinstance(st.target, (ast.Tuple, ast.List))
-                and len(st.target.elts) == len(it.args) and not st.orelse and not any(isinstance(a, ast.Starred) for a in it.args)):
+        if not (isinstance(it, ast.Call) and isinstance(st.target, (ast.Tuple, ast.List)) and not st.orelse
+                and not any(isinstance(a, ast.Starred) for a in it.args)):
+            return False
+        rep = 1
+        if it.keywords:
+            if len(it.keywords) != 1 or it.keywords[0].arg != "repeat" or not isinstance(it.keywords[0].value, ast.Constant) \
+                    or not isinstance(it.keywords[0].value.value, int) or it.keywords[0].value.value < 1:
+                return False
+            rep = it.keywords[0].value.value
+        if len(it.args) * rep < 2 or len(st.target.elts) != len(it.args) * rep:
             return False
         fn = self.eval(it.func, env)
         if not (isinstance(fn, ExtV) and fn.name == "itertools.product"):
@@ -362,6 +423,7 @@ class Interp(StmtMixin, ExtMixin, OpsMixin, InterpCore):
         for a in it.args:
             v = self.eval(a, env)
             pools.append(self.as_iterable(v, st))      # product() drains its inputs before the first tuple
+        pools = pools * rep
         if all(isinstance(q, ListV) and not getattr(q, "tail", None) for q in pools):
             return False
         names = []
@@ -394,6 +456,21 @@ class Interp(StmtMixin, ExtMixin, OpsMixin, InterpCore):
                 if sl is not None and len(sl[2]) == 1 and sl[2][0] is node.elt:
                     return SeqV("rows", base=sl[0], per=sl[1], flush=True)
             it = self.eval(g.iter, env)
+            if isinstance(it, GenV):
+                forced = self.as_iterable(it, node)
+                if isinstance(forced, SeqV) and forced.kind == "rows":
+                    it = forced
+                else:
+                    return self._comp_over(forced, node, g, env, kind)
+            if isinstance(it, ChunkListV):
+                # [f(x) for x in <one row group>]: the same group with every item mapped
+                sub = Env(parent=env, label=env.label)
+                self.assign(g.target, it.spec["elem"], sub)
+                spec2 = dict(it.spec)
+                spec2["elem"] = self.eval(node.elt, sub)
+                spec2["mapped"] = True
+                spec2["root"] = it.spec.get("root", it.spec)
+                return ChunkListV(spec2)
             if isinstance(it, SeqV) and it.kind == "rows":
                 spec = self.rows_spec(it, node)
                 sub = Env(parent=env, label=env.label)
@@ -418,7 +495,62 @@ class Interp(StmtMixin, ExtMixin, OpsMixin, InterpCore):
         out.tail = [SeqV("rowstrings", spec=spec, node=to_node(elt))]
         return out
 
+    def x_itertools_islice(self, args, kwargs, node, env):
+        """islice(xs, stop) / islice(xs, start, stop) of a sequence that is not a one-shot iterator: the slice"""
+        if kwargs or not 2 <= len(args) <= 3:
+            self.err(node, "itertools.islice arguments")
+        src = args[0]
+        if isinstance(src, (GenV, SymIterV, IterV)):
+            self.err(node, "itertools.islice of a one-shot iterator (only the iter(lambda: tuple(islice(it, K)), ()) grouper is modelled)")
+        lo, hi = (None, args[1]) if len(args) == 2 else (args[1], args[2])
+        return self.slice(self.as_iterable(src, node) if not isinstance(src, (ListV, NTV)) else src, lo, hi, node)
+
+    def _islice_grouper(self, fn, sentinel, node):
+        """iter(lambda: tuple(islice(it, K)), ()): consecutive groups of K items of the iterator `it`, the last one possibly
+        shorter (an empty group ends the iteration)"""
+        if not (isinstance(fn, FuncV) and not fn.fi.node.args.args and fn.selfv is None):
+            return None
+        body = fn.fi.node.body
+        if isinstance(body, list):           # lambdas are kept as one-statement functions
+            if len(body) != 1 or not isinstance(body[0], ast.Return) or body[0].value is None:
+                return None
+            body = body[0].value
+        if not (isinstance(body, ast.Call) and isinstance(body.func, ast.Name) and body.func.id in ("tuple", "list") and len(body.args) == 1
+                and not body.keywords and isinstance(body.args[0], ast.Call) and len(body.args[0].args) == 2 and not body.args[0].keywords):
+            return None
+        inner = body.args[0]
+        cenv = Env(parent=fn.closure, module=fn.fi.module, label=fn.fi.fq)
+        f = self.eval(inner.func, cenv)
+        if not (isinstance(f, ExtV) and f.name == "itertools.islice"):
+            return None
+        empty = (isinstance(sentinel, ListV) and not sentinel.items and not getattr(sentinel, "tail", None)
+                 and sentinel.kind == ("tuple" if body.func.id == "tuple" else "list"))
+        if not empty:
+            return None
+        k = self.eval(inner.args[1], cenv)
+        kc = k.const() if isinstance(k, Num) else None
+        if kc is None or kc.denominator != 1 or kc < 1:
+            return None
+        src = self.eval(inner.args[0], cenv)
+        if isinstance(src, SymIterV):
+            if src.used:
+                self.err(node, "a symbolic iterator is consumed twice")
+            src.used = True
+            seq = src.seq
+        elif isinstance(src, GenV):
+            seq = self.as_iterable(src, node)
+        else:
+            return None
+        if not (isinstance(seq, SeqV) and seq.kind in ("family", "seqmap", "opaque")):
+            return None
+        return SeqV("rows", base=seq, per=int(kc), flush=True)
+
     def x_iter(self, args, kwargs, node, env):
+        if len(args) == 2 and not kwargs:
+            g = self._islice_grouper(args[0], args[1], node)
+            if g is None:
+                self.err(node, "iter(callable, sentinel) other than the islice grouper")
+            return g
         v = self.as_iterable(args[0], node)
         if isinstance(v, SeqV) and v.kind in ("family", "seqmap", "opaque"):
             return SymIterV(v)
@@ -615,7 +747,8 @@ class Interp(StmtMixin, ExtMixin, OpsMixin, InterpCore):
                 for i in range(ch["per"]):
                     if i:
                         out.append(p.sep)
-                    out.append(SFmt("s", ChunkItem(i)))
+                    own = getattr(p.chunk, "spec", None)
+                    out.append(SFmt("s", ChunkItem(i, own if own is not None and own.get("mapped") else None)))
             else:
                 out.append(p)
         return out
@@ -623,7 +756,7 @@ class Interp(StmtMixin, ExtMixin, OpsMixin, InterpCore):
     def printf(self, tmpl, arg, node):
         if isinstance(arg, ChunkListV):
             per = arg.spec["per"]
-            arg = ListV([ChunkItem(i) for i in range(per)], "tuple")
+            arg = ListV([ChunkItem(i, arg.spec if arg.spec.get("mapped") else None) for i in range(per)], "tuple")
         return OpsMixin.printf(self, tmpl, arg, node)
 
     def truth(self, v):
@@ -729,8 +862,26 @@ class Interp(StmtMixin, ExtMixin, OpsMixin, InterpCore):
             return StmtMixin.setitem(self, self.hidden_list(base), idx, val, node)
         return StmtMixin.setitem(self, base, idx, val, node)
 
+    def compare(self, op, a, b, node=None):
+        # len(<row group>) == K inside a loop over row groups: true for every full group; it excludes the short last one
+        rl = self.__dict__.get("_rowlen", {})
+        if rl and type(op).__name__ in ("Eq", "NotEq") and isinstance(a, Num) and isinstance(b, Num):
+            for x, y in ((a, b), (b, a)):
+                root = rl.get(repr(x.rf))
+                if root is not None and y.const() is not None:
+                    if y.const() != root["per"]:
+                        self.err(node, "row-group length compared with %s (groups have %d items)" % (y.const(), root["per"]))
+                    root["flush"] = False
+                    return type(op).__name__ == "Eq"
+        return InterpCore.compare(self, op, a, b, node)
+
     def x_len(self, args, kwargs, node, env):
         v = args[0]
+        if isinstance(v, ChunkListV) and "flush" in v.spec.get("root", v.spec) and not v.spec.get("remainder"):
+            root = v.spec.get("root", v.spec)
+            name = "@rowlen%d" % id(root)
+            self.__dict__.setdefault("_rowlen", {})[repr(ep.sym(name))] = root
+            return Num(ep.sym(name))
         if isinstance(v, PyObjV) and hasattr(v.obj, "length"):
             return v.obj.length(self)
         if self.is_listlike(v) and v.ci.lookup("__len__") is None:
@@ -892,6 +1043,15 @@ def _formatter_format(I, inst, args, kwargs):
             seen.setdefault(u.key(), u)
         I.call_function(FuncV(chk, selfv=inst), [ListV(list(seen.values()), "set"), ListV(rest, "tuple"), kw], {}, None)
     return out
+
+
+class _NestedPartV(V):
+    """an inner sequence of a loop nest, to be read with the outer loop's current index"""
+    def __init__(self, part, var, outer_name):
+        self.part, self.var, self.outer_name = part, var, outer_name
+
+    def key(self):
+        return ("nestedpart", id(self))
 
 
 class SymIterV(V):
